@@ -14,6 +14,7 @@ import (
 	"sync"
 	"time"
 
+	"go.pennock.tech/tabular/auto"
 	"go.pennock.tech/tabular/texttable/decoration"
 )
 
@@ -85,6 +86,7 @@ type regCall struct {
 	ev, name, did string
 	res           interface{}
 	sorted        int
+	skip          bool // the registry was read through another API (auto.ListStyles): pair the hook event, log nothing
 }
 
 func doRegOp(op M, prefix string) regCall {
@@ -117,6 +119,14 @@ func doRegOp(op M, prefix string) regCall {
 func runRegistryMode(in *os.File, out *bufio.Writer) {
 	rec := &regRecorder{hold: map[int]chan struct{}{}, held: make(chan int, 16)}
 	decoration.VerifHook = rec.hook
+	// The very first contact of this process with the registry may be an application's override of a
+	// built-in name (as from an init function): it must stick.
+	early := []interface{}{}
+	if *flagEarly != "" {
+		d := decFromToken("early-" + *flagEarly)
+		decoration.RegisterDecorationName(*flagEarly, d)
+		early = []interface{}{*flagEarly, decID(d)}
+	}
 	// initial content
 	init := []interface{}{}
 	for _, n := range decoration.RegisteredDecorationNames() {
@@ -125,7 +135,7 @@ func runRegistryMode(in *os.File, out *bufio.Writer) {
 	rec.mu.Lock()
 	rec.events = nil
 	rec.mu.Unlock()
-	writeLine(out, M{"ev": "init", "names": init})
+	writeLine(out, M{"ev": "init", "names": init, "early": early})
 
 	// flush: pair the hook events (in seq order) with the calls of each goroutine
 	flush := func(scen string, calls map[int][]regCall) {
@@ -145,6 +155,9 @@ func runRegistryMode(in *os.File, out *bufio.Writer) {
 			c := cs[k]
 			if c.ev != e.ev {
 				derr("hook event %s does not match call %s", e.ev, c.ev)
+			}
+			if c.skip {
+				continue
 			}
 			line := M{"ev": c.ev, "scen": scen, "g": e.gid, "name": c.name, "seq": e.seq}
 			switch c.ev {
@@ -255,8 +268,12 @@ func runRegistryMode(in *os.File, out *bufio.Writer) {
 						switch r := rng.Intn(10); {
 						case r < 3:
 							op = M{"op": "register", "name": name, "d": fmt.Sprintf("p%d_%d", p, i)}
-						case r < 8:
+						case r < 7:
 							op = M{"op": "named", "name": name}
+						case r < 8:
+							auto.ListStyles() // (its result is checked once the run is quiescent, below)
+							mine = append(mine, regCall{ev: "list", skip: true})
+							continue
 						default:
 							op = M{"op": "list"}
 						}
@@ -273,6 +290,16 @@ func runRegistryMode(in *os.File, out *bufio.Writer) {
 			close(start)
 			wg.Wait()
 			flush(scen, calls)
+			// quiescent: the style listing must now show every registered name
+			ls := auto.ListStyles()
+			rec.mu.Lock()
+			rec.events = nil // (the listing's own hook event)
+			rec.mu.Unlock()
+			il := make([]interface{}, len(ls))
+			for i, x := range ls {
+				il[i] = x
+			}
+			writeLine(out, M{"ev": "styles", "scen": scen, "res": il, "sorted": b2i(sort.StringsAreSorted(ls))})
 		case sc["probe"] != nil:
 			// A is held inside its critical section; B must neither reach its own
 			// critical section nor return until A is released.
